@@ -29,7 +29,9 @@ RULE = ("seeded op sequences on direct and bucketed k-mer tables (alphabets of 2
         "threshold boundaries (compression dividing / not dividing the range), cached vs plain syncmer selector "
         "(`csynck`) and table __eq__ across content / order / bucket number / kind / spacing; every ndarray argument "
         "is passed in varying memory layouts and dtypes (strided, Fortran, transposed, column slices, read-only, "
-        "int32/uint32/uint64). non-trivial = at least one non-empty result or an error branch; "
+        "int32/uint32/uint64); substitution matrices over alphabets larger than the k-mer base alphabet; contiguous "
+        "vs spaced k-mer alphabets (equality both ways, mixed from_tables / match_table); queries over smaller / "
+        "larger / foreign alphabets with in-range codes. non-trivial = at least one non-empty result or an error branch; "
         "distinct = different op list")
 TRUSTED = ["numpy fancy indexing / argsort / where, pickle: modelled by documented semantics",
            "ScoreThresholdRule.similar_kmers: the iterative while-loop is modelled as the depth-first recursion it performs "
@@ -45,7 +47,9 @@ LEVEL_TEXT = ("proof for all inputs (Lean 4, no size bound, no sorry): the two-p
               "the canonical table of their input; match exactness is one theorem with the similarity rule as a "
               "parameter (identical k-mers, or similar under a supplied rule, masked positions excluded); "
               "ScoreThresholdRule.similar_kmers (branch-and-bound as DFS recursion) returns exactly the symbol "
-              "strings with score >= threshold given the max-score pruning bound, which the row maxima satisfy; "
+              "strings over the base alphabet with score >= threshold given the max-score pruning bound, which the "
+              "row maxima of a matrix over any extending alphabet satisfy; KmerAlphabet.__eq__ decides structural "
+              "equality (symmetric); match only answers queries whose alphabet the table's alphabet extends; "
               "match_kmer_selection / match_table (join over equal k-mers) / count / count() complete / get_kmers "
               "complete and strictly ascending / the per-k-mer scan are exact; __eq__ holds iff same kind, alphabet "
               "size, k, slot number and slot-wise content; pickle round trip on the word layout; contiguous mask; "
@@ -368,6 +372,14 @@ def _run_ops(ops):
         h = zlib.crc32(f"{LAY['op']}#{LAY['i']}".encode())
         if not rejectable and a.ndim == 1 and h % 7 in (3, 5):
             h += 1
+        if rejectable and a.ndim == 1 and (h // 49) % 5 == 0:
+            w3 = (h // 245) % 3            # the same values as list / tuple / byte-swapped array
+            if w3 == 0:
+                return a.tolist()
+            if w3 == 1:
+                return tuple(a.tolist())
+            if a.dtype != bool and a.dtype.itemsize > 1:
+                return a.astype(a.dtype.newbyteorder(">"))
         if a.ndim == 1:
             v = h % 7
             if v == 1:                                   # every second element of a longer buffer
@@ -417,6 +429,22 @@ def _run_ops(ops):
             return a
         return a
 
+    def S(x, limit=None):
+        """the same integer as Python int or as a NumPy scalar of some width (chosen per op and argument).
+        limit: a value that must also fit the chosen type (n**k for k: narrower types overflow in len(), known finding)"""
+        if not LAY["on"]:
+            return x
+        LAY["i"] += 1
+        h = zlib.crc32(f"{LAY['op']}#S{LAY['i']}".encode())
+        types = [None, np.int64, np.int32, np.uint32, np.uint64, np.int16, np.uint16, np.int8, np.uint8, None]
+        ty = types[h % len(types)]
+        if ty is None:
+            return x
+        info = np.iinfo(ty)
+        if info.min <= x <= info.max and (limit is None or limit <= info.max):
+            return ty(x)
+        return x
+
     def i64(xs, rejectable=True):
         return L(np.array(xs, dtype=np.int64), rejectable)
 
@@ -436,6 +464,8 @@ def _run_ops(ops):
             return None
         if p == "rand":
             return align.RandomPermutation()
+        if p.startswith("ft"):
+            return align.FrequencyPermutation.from_table(st["tables"][int(p[2:])][0])
         kind, vals = p.split(":")
         if kind == "freq":
             return align.FrequencyPermutation(kalph, i64(_parse_nats(vals)))
@@ -447,7 +477,7 @@ def _run_ops(ops):
         m = np.array(vals, dtype=np.int32).reshape(dim, dim)
         # the matrix alphabet may be larger than the base alphabet of the k-mers (it must extend it)
         malph = st["base"] if dim == st["n"] else bseq.LetterAlphabet("ABCDEFGHIJKLMNOPQRSTUVWXYZ"[:dim])
-        return align.ScoreThresholdRule(align.SubstitutionMatrix(malph, malph, m), int(thr))
+        return align.ScoreThresholdRule(align.SubstitutionMatrix(malph, malph, m), S(int(thr)))
 
     def mkqseq(codes, qa):
         """query sequence over a prefix alphabet of another size or over foreign symbols"""
@@ -493,7 +523,7 @@ def _run_ops(ops):
                 arg = "".join("1" if i in sp else "0" for i in range(sp[-1] + 1))   # string form of the same model
             elif sp is not None:
                 arg = spacing_array(sp)                                           # int64 ndarray, as given (maybe unsorted)
-            st["ka"] = align.KmerAlphabet(st["base"], k, arg)
+            st["ka"] = align.KmerAlphabet(st["base"], S(k, n ** k), arg)
             line = f"ok {len(st['ka'])}"
             if isinstance(arg, np.ndarray):
                 if arg.tolist() != list(sp):
@@ -508,7 +538,12 @@ def _run_ops(ops):
         if c == "fuse":
             return f"ok {int(ka.fuse(i64(_parse_nats(w[1]))))}"
         if c == "simk":
-            return "ok " + _nats(sorted(int(x) for x in mkrule(w[2], w[3]).similar_kmers(ka, int(w[1]))))
+            rule = mkrule(w[2], w[3])
+            try:
+                rule.similar_kmers(ka, (int(w[1]) + 1) % max(1, len(ka)))      # the rule object is reused: no state may stick
+            except Exception:  # noqa: BLE001
+                pass
+            return "ok " + _nats(sorted(int(x) for x in rule.similar_kmers(ka, S(int(w[1])))))
         if c == "mask":
             m = boolarr(_parse_bits(w[1]))
             from biotite.sequence.align import kmertable as KT
@@ -516,8 +551,9 @@ def _run_ops(ops):
         if c in ("seqs", "kms", "sel"):
             nb = None if w[1] == "d" else int(w[1])
             cls = align.KmerTable if nb is None else align.BucketKmerTable
-            kw = {} if nb is None else {"n_buckets": nb}
+            kw = {} if nb is None else {"n_buckets": S(nb)}
             g = Guard()
+            LAY["guard"] = g
             sp_arr = None
             if c == "seqs":
                 seqs = [mkseq(x) for x in _parse_lists(w[3])]
@@ -527,7 +563,7 @@ def _run_ops(ops):
                 ms = _parse_masks(w[4], len(seqs))
                 ms = None if ms is None else [None if m is None else g.add(boolarr(m)) for m in ms]
                 sp_arr = None if st["sp"] is None else spacing_array(st["sp"])
-                t = cls.from_sequences(st["k"], seqs, rid, ms, alphabet=st["base"], spacing=sp_arr, **kw)
+                t = cls.from_sequences(S(st["k"], st["n"] ** st["k"]), seqs, rid, ms, alphabet=st["base"], spacing=sp_arr, **kw)
             elif c == "kms":
                 kms = [g.add(i64(x, rejectable=(j == 0))) for j, x in enumerate(_parse_lists(w[3]))]
                 rid = None if w[2] == "-" else g.add(i64(_parse_nats(w[2])))
@@ -546,6 +582,33 @@ def _run_ops(ops):
             if sp_arr is not None:
                 scramble_spacing(sp_arr)
             return add(t, nb is not None) + (" |argument-modified" if modified else "")
+        if c == "seqsx":
+            auto = w[1] == "a"
+            nb = None if w[1] in ("d", "a") else int(w[1])
+            cls = align.KmerTable if w[1] == "d" else align.BucketKmerTable
+            kw = {} if nb is None else {"n_buckets": S(nb)}
+            msz = _parse_nats(w[5])
+            seqs = []
+            for codes, m_ in zip(_parse_lists(w[3]), msz):
+                sq = bseq.GeneralSequence(bseq.LetterAlphabet("ABCDEFGHIJKLMNOPQRSTUVWXYZ"[:m_]))
+                sq.code = L(np.array(codes, dtype=np.uint8))
+                seqs.append(sq)
+            rid = None if w[2] == "-" else i64(_parse_nats(w[2]))
+            ms = _parse_masks(w[4], len(seqs))
+            ms = None if ms is None else [None if m is None else boolarr(m) for m in ms]
+            sp_arr = None if st["sp"] is None else spacing_array(st["sp"])
+            explicit = st["base"] if w[6] == "e" else None
+            t = cls.from_sequences(S(st["k"], st["n"] ** st["k"]), seqs, rid, ms, alphabet=explicit, spacing=sp_arr, **kw)
+            line = add(t, w[1] != "d")
+            if auto:
+                # default bucket number: a prime, at least n_kmers / 0.8 (the documented load factor)
+                n_km = sum(max(0, len(sq) - (max(st["sp"]) + 1 if st["sp"] else st["k"]) + 1) for sq in seqs)
+                nbk = int(t.n_buckets)
+                want = int(n_km / 0.8)
+                clipped = len(t)
+                if not (nbk == clipped or (nbk >= want and all(nbk % d for d in range(2, int(nbk ** 0.5) + 1)) and nbk >= 2)):
+                    line += " |bad-default-buckets"
+            return line
         if c == "pos":
             g = Guard()
             d = {k: g.add(L(np.array(ps, dtype=np.int64).reshape(-1, 2))) for k, ps in _parse_dict(w[1])}
@@ -573,6 +636,10 @@ def _run_ops(ops):
                 m = t.match_kmer_selection(np.arange(len(kms)), kms)
                 return "ok " + _tuples((kms[i], r, p) for i, r, p in m.tolist())
             if c == "match":
+                try:
+                    t.match(mkseq(list(reversed(_parse_nats(w[2]))) + [0]))
+                except Exception:  # noqa: BLE001
+                    pass
                 mask = None if w[3] == "-" else boolarr(_parse_bits(w[3]))
                 return "ok " + _tuples(t.match(mkseq(_parse_nats(w[2])), ignore_mask=mask).tolist())
             if c == "matchq":
@@ -591,7 +658,7 @@ def _run_ops(ops):
             if c == "getkmers":
                 return "ok " + _nats(t.get_kmers())
             if c == "get":
-                return "ok " + _tuples(t[int(w[2])].tolist())
+                return "ok " + _tuples(t[S(int(w[2]))].tolist())
         if c in ("matchtab", "matchtabsim", "eq"):
             a, b = tab(w[1]), tab(w[2])
             if a is None or b is None:
@@ -601,47 +668,106 @@ def _run_ops(ops):
             if c == "eq":
                 return "ok " + ("true" if a[0] == b[0] else "false")
             return "ok " + _tuples(a[0].match_table(b[0]).tolist())
-        if c == "minim":
-            sel = align.MinimizerSelector(ka, int(w[1]), mkperm(w[2], ka))
+        def decoy(fn, arr):
+            """objects are reused: a first call on other input must not influence the second one"""
+            try:
+                fn(np.asarray(arr)[::-1].copy())
+            except Exception:  # noqa: BLE001
+                pass
+
+        if c in ("minim", "minimq"):
+            sel = align.MinimizerSelector(ka, S(int(w[1])), mkperm(w[2], ka))
+            if c == "minimq":
+                decoy(lambda x: sel.select(mkqseq(x.tolist(), w[4]), alphabet_check=False), np.array(_parse_nats(w[3]) + [0]))
+                return pairs(*sel.select(mkqseq(_parse_nats(w[3]), w[4]), alphabet_check=(w[5] == "1")))
+            decoy(sel.select_from_kmers, np.array(_parse_nats(w[3]) + [0], dtype=np.int64))
             return pairs(*sel.select_from_kmers(i64(_parse_nats(w[3]))))
-        if c in ("sync", "synck", "csynck"):
+        if c in ("sync", "synck", "csynck", "syncq"):
             s = int(w[1])
-            offs = tuple(int(x) for x in w[3].split(","))
+            offs = tuple(S(int(x)) for x in w[3].split(","))
             smer_alph = align.KmerAlphabet(st["base"], s)
             perm = mkperm(w[2], smer_alph)
-            sel = align.SyncmerSelector(st["base"], st["k"], s, perm, offs)
+            if c == "syncq":
+                cls_ = align.CachedSyncmerSelector if w[7] == "1" else align.SyncmerSelector
+                sel = cls_(st["base"], S(st["k"], st["n"] ** st["k"]), S(s), perm, offs)
+                decoy(lambda x: sel.select(mkqseq(x.tolist(), w[5]), alphabet_check=False), np.array(_parse_nats(w[4]) + [0]))
+                return pairs(*sel.select(mkqseq(_parse_nats(w[4]), w[5]), alphabet_check=(w[6] == "1")))
+            sel = align.SyncmerSelector(st["base"], st["k"], S(s), perm, offs)
             if c == "sync":
                 return pairs(*sel.select(mkseq(_parse_nats(w[4]))))
             kms = i64(_parse_nats(w[4]))
             if c == "csynck":
-                return pairs(*align.CachedSyncmerSelector(st["base"], st["k"], s, perm, offs).select_from_kmers(kms))
+                csel = align.CachedSyncmerSelector(st["base"], st["k"], s, perm, offs)
+                decoy(csel.select_from_kmers, np.array(_parse_nats(w[4]) + [0], dtype=np.int64))
+                return pairs(*csel.select_from_kmers(kms))
+            decoy(sel.select_from_kmers, np.array(_parse_nats(w[4]) + [0], dtype=np.int64))
             plain = pairs(*sel.select_from_kmers(kms))
             if len(ka) <= 700:
                 cached = pairs(*align.CachedSyncmerSelector(st["base"], st["k"], s, perm, offs).select_from_kmers(kms))
                 if cached != plain:
                     return plain + " |cached " + cached
             return plain
-        if c == "minc":
-            sel = align.MincodeSelector(ka, int(w[1]), mkperm(w[2], ka))
+        if c in ("minc", "mincq"):
+            sel = align.MincodeSelector(ka, S(int(w[1])), mkperm(w[2], ka))
+            if c == "mincq":
+                return pairs(*sel.select(mkqseq(_parse_nats(w[3]), w[4]), alphabet_check=(w[5] == "1")))
+            decoy(sel.select_from_kmers, np.array(_parse_nats(w[3]) + [0], dtype=np.int64))
             return pairs(*sel.select_from_kmers(i64(_parse_nats(w[3]))))
+        if c in ("has", "iter", "rev", "props", "str"):
+            tb = tab(w[1])
+            if tb is None:
+                return "no-table"
+            t, bucketed = tb
+            if c == "has":
+                return "ok " + ("true" if S(int(w[2])) in t else "false")
+            if c == "iter":
+                return "ok " + _nats(list(t))
+            if c == "rev":
+                return "ok " + _nats(list(reversed(t)))
+            if c == "props":
+                sp_ = t.kmer_alphabet.spacing
+                return (f"ok len={len(t)} k={t.k} n={len(t.alphabet)} nb={t.n_buckets if bucketed else '-'} "
+                        f"sp={'-' if sp_ is None else _nats(sp_)}")
+            txt = str(t).replace(" ", "").replace("\n", "|")
+            return "ok " + (txt if txt else "_")
+        if c == "split":
+            return "ok " + _nats(ka.split(S(int(w[1]))))
+        if c == "decode":
+            return "ok " + "".join(ka.decode(S(int(w[1]))))
+        if c == "encode":
+            letters = "".join("ABCDEFGHIJKLMNOPQRSTUVWXYZ"[x] for x in _parse_nats(w[1]))
+            return f"ok {int(ka.encode(letters))}"
+        if c == "arrlen":
+            return f"ok {int(ka.kmer_array_length(S(int(w[1]))))}"
         return "bad-op"
 
     out = []
+
+    def refused(e):
+        """a refused call must leave its (array) arguments untouched"""
+        g = LAY.get("guard")
+        LAY["guard"] = None
+        return "ERR:" + type(e).__name__ + (" |argument-modified" if g is not None and g.changed() else "")
+
     for op in ops:
-        LAY.update(on=True, op=op, i=0)
+        LAY.update(on=True, op=op, i=0, guard=None)
         try:
             out.append(one(op))
             continue
-        except (TypeError, ValueError, BufferError):
-            pass                 # possibly a layout / dtype / read-only buffer the real code rejects: redo with plain arrays
+        except (TypeError, ValueError, BufferError, AttributeError) as e:
+            g = LAY.get("guard")
+            if g is not None and g.changed():
+                out.append(refused(e))
+                continue
+            # possibly a layout / dtype / spelling / read-only buffer the real code rejects: redo with plain arguments
         except Exception as e:  # noqa: BLE001
-            out.append("ERR:" + type(e).__name__)
+            out.append(refused(e))
             continue
-        LAY.update(on=False, i=0)
+        LAY.update(on=False, i=0, guard=None)
         try:
             out.append(one(op))
         except Exception as e:  # noqa: BLE001
-            out.append("ERR:" + type(e).__name__)
+            out.append(refused(e))
     return out
 
 
